@@ -653,12 +653,17 @@ func nativeReplay(repo, hdir, work, pkg, harness, replayPath string) (string, st
 	os.MkdirAll(work, 0o755)
 	repl := map[string]string{}
 	pkgName := ""
+	_, genErr := os.Stat(filepath.Join(work, "gen"))
+	haveGen := genErr == nil
 	for _, root := range []string{hdir, filepath.Join(work, "gen")} {
 		filepath.Walk(root, func(path string, info os.FileInfo, err error) error {
 			if err != nil || info.IsDir() || !strings.HasSuffix(path, ".go") {
 				return nil
 			}
 			rel, _ := filepath.Rel(root, path)
+			if _, needsGen := genPackages[filepath.Dir(rel)]; needsGen && !haveGen {
+				return nil // harnesses of these packages need the generated tile-matrix-set data
+			}
 			repl[filepath.Join(repo, rel)] = path
 			if filepath.Dir(rel) == pkg && pkgName == "" {
 				b, _ := os.ReadFile(path)
